@@ -61,6 +61,16 @@ def _name(rng: random.Random, uniq: Optional[str] = None) -> str:
     return f"{base}_{uniq}" if uniq else base
 
 
+# words with characters outside the lexer's alphabet: the lexer skips those characters, but they are user
+# text and belong to the body verbatim ("plain": the word still contains an identifier; "symbol": no token at all)
+FOREIGN_WORDS = [("caf\u00e9", "plain"), ("na\u00efve", "plain"), ("Zo\u00eb's", "plain"), ("r\u00e9sum\u00e9,", "plain"), ("\u00e9clair", "plain"), ("sm\u00f6rg\u00e5sbord", "plain"), ("\u20ac5", "plain"), ("(\u00fcber)", "plain"), ("\u2014", "symbol"), ("\u65e5\u672c\u8a9e", "symbol"), ("\u2026", "symbol"), ("\u0441\u043c\u044b\u0441\u043b", "symbol")]
+
+
+def w_foreign(rng: random.Random, symbols: bool = True) -> W:
+    t, form = rng.choice(FOREIGN_WORDS if symbols else [f for f in FOREIGN_WORDS if f[1] == "plain"])
+    return W(t, form=form)
+
+
 def w_plain(rng: random.Random) -> W:
     return W(rng.choice(PLAIN_WORDS))
 
@@ -459,6 +469,7 @@ class GenOpts:
     allow_idfree_trigger: bool = False  # see idfree_trigger()
     p_mod_equals_create: float = 0.0  # explicit YYMMDD equal to the ZID's own date
     allow_mod_without_zid: bool = True
+    p_foreign: float = 0.04  # body words with non-ASCII characters (see FOREIGN_WORDS)
 
 
 class PageGen:
@@ -532,6 +543,9 @@ class PageGen:
                 w = self.meta_word(where)
             else:
                 w = self.filler(allow_collision and not (first_safe and i == 0))
+                if where == "item" and self.o.p_foreign and self.rng.random() < self.o.p_foreign:
+                    # (never a token-less word in first position: an item made only of such words is, for the grammar, empty)
+                    w = w_foreign(self.rng, self.o.symbols and not (first_safe and i == 0))
             out.append(w)
         if first_safe and out:
             # the first body word must not *be* a prefix by the format's own definition
